@@ -52,6 +52,15 @@ handler's effect (PC reduced modulo the address space, status bits 4/5 forced) i
 def HandlerOK (c : Cfg) (v : Variant) (h : St → St) (mn : Mn) (mo : Mode) : Prop :=
   ∀ s, WF c s → absH c (h s) = exec c.BYTE_WIDTH v mn mo (abs s)
 
+/-- Handler theorem under a precondition on the state after the opcode fetch (JSR: the pushed
+cells are not the instruction's own operand bytes; ADC/SBC: decimal flag clear). -/
+def HandlerOKp (c : Cfg) (v : Variant) (h : St → St) (mn : Mn) (mo : Mode) (P : St → Prop) : Prop :=
+  ∀ s, WF c s → P s → absH c (h s) = exec c.BYTE_WIDTH v mn mo (abs s)
+
+theorem HandlerOK.toP {c : Cfg} {v : Variant} {h : St → St} {mn : Mn} {mo : Mode}
+    (hh : HandlerOK c v h mn mo) (P : St → Prop) : HandlerOKp c v h mn mo P :=
+  fun s hs _ => hh s hs
+
 /-- `pc += k` after the operation, as every handler does. -/
 def bump (k : Int) (s : St) : St := { s with pc := s.pc + k }
 
